@@ -62,7 +62,10 @@ impl SavedSim {
         movement.clear();
         movement.push(SimpleState::from_train_state(&self.train_sim.state));
         // TODO: Tighten up this bound using braking points.
-        while condition(&self.train_sim) {
+        // A finished sim that has not moved yet (the whole remaining route lies inside the
+        // look-ahead distance, so the train is still standing at its origin with zero speed) must
+        // still be started; otherwise it never leaves the origin and no events are produced.
+        while condition(&self.train_sim) || (movement.len() == 1 && self.train_sim.is_finished()) {
             self.train_sim.step()?;
             movement.push(SimpleState::from_train_state(&self.train_sim.state));
         }
